@@ -17,11 +17,14 @@ func main() {
 	n := fs.Int("n", 100, "number of cases")
 	out := fs.String("out", ".", "output directory")
 	replay := fs.String("replay", "", "replay file")
+	repo := fs.String("repo", "/repo", "path of the anko working tree")
 	fs.Parse(os.Args[2:])
 	var err error
 	switch id {
 	case "c12":
 		err = c12Main(*seed, *n, *out, *replay)
+	case "c17":
+		err = c17Main(*seed, *n, *out, *repo)
 	default:
 		err = fmt.Errorf("unknown property %s", id)
 	}
